@@ -81,13 +81,43 @@ pub trait BlockModeDecBackend: ParBlocksSizeUser {
             (final(self).abs(), seq![block.out_fut()@]) == run(old(self).step(), old(self).abs(), seq![block.in_val()@]);
 
     // precondition derived from the single call site in cipher::block::ctx (BlocksCtx::call takes the
-    // parallel path only if ParBlocksSize > 1)
-    fn decrypt_par_blocks(&mut self, blocks: InOut<'_, '_, ParBlocks<Self>>)
+    // parallel path only if ParBlocksSize > 1).  The default body below is the dependency's own text
+    // (cipher-0.5.0-pre.8 src/block/backends.rs), verified here against the transducer contract.
+    fn decrypt_par_blocks(&mut self, mut blocks: InOut<'_, '_, ParBlocks<Self>>)
         requires Self::ParBlocksSize::USIZE > 1
         ensures
             final(self).step() == old(self).step(),
             final(self).abs_fut() == old(self).abs_fut(),
-            (final(self).abs(), views(blocks.out_fut()@)) == run(old(self).step(), old(self).abs(), views(blocks.in_val()@));
+            (final(self).abs(), views(blocks.out_fut()@)) == run(old(self).step(), old(self).abs(), views(blocks.in_val()@))
+    {
+        broadcast use Array::axiom_len;
+        let ghost step0 = self.step();
+        let ghost abs0 = self.abs();
+        let ghost in0 = blocks.in_val()@;
+        let ghost b0 = blocks;
+        for i in 0..Self::ParBlocksSize::USIZE
+            invariant
+                self.step() == step0, self.abs_fut() == old(self).abs_fut(),
+                in0.len() == Self::ParBlocksSize::USIZE, blocks.out@.len() == in0.len(),
+                mut_ref_future(blocks.out) == mut_ref_future(b0.out), blocks.inp == b0.inp, blocks.aliased == b0.aliased,
+                forall |j: int| i <= j < in0.len() ==> #[trigger] blocks.in_val()@[j] == in0[j],
+                (self.abs(), views(blocks.out@.take(i as int))) == run(step0, abs0, views(in0.take(i as int))),
+        {
+            let ghost a1 = self.abs();
+            let ghost o1 = blocks.out@;
+            self.decrypt_block(blocks.get(i));
+            proof {
+                let xs = views(in0.take(i as int));
+                run_concat(step0, abs0, xs, seq![in0[i as int]@]);
+                assert(views(in0.take(i + 1)) =~= xs + seq![in0[i as int]@]);
+                assert(views(blocks.out@.take(i + 1)) =~= views(o1.take(i as int)) + seq![blocks.out@[i as int]@]);
+            }
+        }
+        proof {
+            assert(in0.take(in0.len() as int) =~= in0);
+            assert(blocks.out@.take(in0.len() as int) =~= blocks.out@);
+        }
+    }
 }
 
 // ---- rank-2 closures, contracts at the abstract level ----
